@@ -97,6 +97,9 @@ def query_of(rep, idx, c, _depth=0):
             if len(sub) == 1:
                 out.append((n, sub[0][1], sub[0][2]))
                 c._helper_query = (hc, n.ast.value)
+                if not hasattr(c, "_helper_queries"):
+                    c._helper_queries = {}
+                c._helper_queries[n.id] = (hc, n.ast.value)
     return fg, out
 
 
@@ -126,6 +129,45 @@ def helper_query(c, hc, call_ast):
     return c.norm(ir.subst(hq, lambda e: bind.get(e[1]) if e[0] == 'name' else None))
 
 
+def merged_query(c, fg, queries):
+    """Two availability queries under `cond` and `not cond`: one query whose arguments are the choice between the two."""
+    parts = []
+    for n, call_ast, raises in queries:
+        q, conds = None, None
+        hq = getattr(c, "_helper_queries", {}).get(n.id)
+        if hq is not None:
+            q = helper_query(c, *hq)
+            for e, gen, dsl_, ln in c.t.calls:
+                if ln == hq[1].lineno and e[0] == 'call':
+                    conds = [(c.norm(fr[1]), fr[2]) for fr in gen if fr[0] == 'pyif']
+        else:
+            for cond, gen, ln in c.t.conds:
+                if ln == n.lineno:
+                    for x in ir.walk(c.norm(cond)):
+                        if x[0] == 'call' and x[1] == c.parse("self._namespace.is_available"):
+                            q = x
+                            conds = [(c.norm(fr[1]), fr[2]) for fr in gen if fr[0] == 'pyif']
+        if q is None or not conds:
+            return None
+        parts.append((q, conds))
+    (qa, ca), (qb, cb) = parts
+    if len(ca) != len(cb) or ca[:-1] != cb[:-1] or ca[-1][0] != cb[-1][0] or ca[-1][1] == cb[-1][1] or qa[1] != qb[1] or qa[3] != qb[3]:
+        return None
+
+    def as_seq(args):
+        if len(args) == 1 and args[0][0] == 'star':
+            return args[0][1]
+        if any(a[0] == 'star' for a in args):
+            return None
+        return ('tuple', tuple(args))
+    sa, sb = as_seq(qa[2]), as_seq(qb[2])
+    if sa is None or sb is None:
+        return None
+    cond = ca[-1][0]
+    t_, f_ = (sa, sb) if ca[-1][1] else (sb, sa)
+    return ('call', qa[1], (('star', ('phi', cond, t_, f_)),), qa[3])
+
+
 def namespace_sites(rep, idx):
     for spec, obj in (("MemoryMap.add_resource", "resource"), ("MemoryMap.add_window", "window")):
         c = get_fn(idx, spec)
@@ -133,18 +175,28 @@ def namespace_sites(rep, idx):
         rep.analysed(site)
         fg, queries = query_of(rep, idx, c)
         g = fg.g
-        if len(queries) != 1:
+        two_arms = None
+        if len(queries) == 2:
+            # one query per arm of a generation-time choice (`if name is None: check(names()) else: check((name,))`)
+            two_arms = merged_query(c, fg, queries)
+            if two_arms is None:
+                rep.unk("C18.1", site, "availability query before the namespace is touched",
+                        "two is_available() tests that are not the two arms of one choice")
+                continue
+        elif len(queries) != 1:
             rep.bad("C18.1", site, "availability query before the namespace is touched", f"found {len(queries)} is_available() tests")
             continue
         qn, qcall, qraises = queries[0]
-        rep.check(qraises, "C18.1", site, "an unavailable name makes the call raise", "the failing edge of the is_available() test does not raise")
+        qnodes = [x[0] for x in queries]
+        rep.check(all(x[2] for x in queries), "C18.1", site, "an unavailable name makes the call raise", "the failing edge of the is_available() test does not raise")
         # symbolic arguments of the query (through the walker: local aliases resolved)
         # the call sits in an `if` test, which the walker records as a generation-time condition
-        q = None
-        for cond, gen, ln in c.t.conds:
-            for x in ir.walk(c.norm(cond)):
-                if x[0] == 'call' and x[1] == c.parse("self._namespace.is_available"):
-                    q = x
+        q = two_arms
+        if q is None:
+            for cond, gen, ln in c.t.conds:
+                for x in ir.walk(c.norm(cond)):
+                    if x[0] == 'call' and x[1] == c.parse("self._namespace.is_available"):
+                        q = x
         if q is None and getattr(c, "_helper_query", None) is not None:
             q = helper_query(c, *c._helper_query)
         if q is None:
@@ -159,7 +211,18 @@ def namespace_sites(rep, idx):
             kind = call[1][2]
             what = f"self._namespace.{kind}(...) at line {ln}"
             nodes = [n.id for n in g.nodes if n.kind == "stmt" and n.lineno == ln]
-            dominated = bool(nodes) and all(qn.id in dom[x] for x in nodes)
+            dominated = bool(nodes) and all(any(qx.id in dom[x] for qx in qnodes) for x in nodes)
+            if not dominated and nodes and len(qnodes) > 1:
+                # the queries dominate collectively: without passing one of them the update cannot be reached
+                qids = {qx.id for qx in qnodes}
+                seen_, work_ = set(), [g.entry.id]
+                while work_:
+                    y = work_.pop()
+                    if y in seen_ or y in qids:
+                        continue
+                    seen_.add(y)
+                    work_.extend(s_ for s_, lab_ in g.succ[y])
+                dominated = not any(x in seen_ for x in nodes)
             rep.check(dominated, "C18.1", site, f"{what} is preceded by the availability query on every path",
                       "namespace is updated on a path that skips the conflict check")
             qa = []
